@@ -490,6 +490,22 @@ def hyperv_cycle(variant) -> bytes:
     return bytes(data)
 
 
+def declared_unit(kind, data: bytes) -> int:
+    """The allocation unit the (mutated) input itself declares for compressed data: a reader has to inflate a whole
+    unit to serve a byte of it, so the statement's bound is relative to it (capped at what the format allows)."""
+    try:
+        if kind == "vmdk" and data[:4] == b"KDMV":
+            sizes = [struct.unpack_from("<Q", data, 20)[0]]
+            if len(data) >= 1024 and data[-1024:-1020] == b"KDMV":
+                sizes.append(struct.unpack_from("<Q", data, len(data) - 1024 + 20)[0])
+            return min(max(sizes) * 512, 1 << 31)
+        if kind == "qcow2" and len(data) >= 24:
+            return 1 << min(struct.unpack_from(">I", data, 20)[0], 21)
+    except struct.error:
+        pass
+    return 0
+
+
 def check(spec) -> Outcome:
     out = Outcome()
     sname = spec["seed"]
@@ -530,7 +546,7 @@ def check(spec) -> Outcome:
             except zlib.error:
                 pass
         runner = lambda: drive(kind, mutated, spec)  # noqa: E731
-    limit = BASE_MEM + 8 * (inp_len + 3 * REQ + unit)
+    limit = BASE_MEM + 8 * (inp_len + 3 * REQ + max(unit, declared_unit(kind, mutated if "cycle" not in spec else b"")))
     stage = "open"
     tracemalloc.start()
     t0 = time.process_time()
